@@ -9,6 +9,12 @@ use super::*;
 const E: [Entity; 2] = [Entity::from_raw(0), Entity::from_raw(1)];
 
 fn run_ops(whitelist: bool, ops: usize) {
+    run_ops_from(whitelist, ops, false)
+}
+
+/// `flipped`: start from the state where both entities have the NON-default visibility for longer
+/// than a tick (whitelist: visible and held by the client; blacklist: hidden and not held).
+fn run_ops_from(whitelist: bool, ops: usize, flipped: bool) {
     let mut visibility = if whitelist {
         ClientVisibility::whitelist()
     } else {
@@ -17,6 +23,15 @@ fn run_ops(whitelist: bool, ops: usize) {
     let default_visible = !whitelist;
     let mut now = [default_visible; 2];
     let mut last = [default_visible; 2];
+    if flipped {
+        for i in 0..2 {
+            visibility.set_visibility(E[i], !default_visible);
+        }
+        for _ in visibility.drain_lost() {}
+        visibility.update();
+        now = [!default_visible; 2];
+        last = now;
+    }
     let mut pending = [false; 2];
     let mut ticks = 0;
     let mut lost_seen = false;
@@ -135,4 +150,28 @@ fn c08_visibility_blacklist_6ops() {
 #[kani::unwind(8)]
 fn c08_visibility_whitelist_6ops() {
     run_ops(true, 6);
+}
+
+// HARNESS: c08_visibility_whitelist_held_4ops
+// PROPS: C08 C03
+// TIER: quick
+// TIMEOUT: 900
+// DRIVES: ClientVisibility::whitelist, ClientVisibility::set_visibility, ClientVisibility::remove_despawned, ClientVisibility::drain_lost, ClientVisibility::update, ClientVisibility::is_visible, ClientVisibility::state
+// BOUNDS: whitelist policy, both entities visible and held by the client since an earlier tick; every sequence of 4 operations from {show e, hide e, despawn e, tick}; stand-in maps CAP 4; unwind 6
+#[kani::proof]
+#[kani::unwind(6)]
+fn c08_visibility_whitelist_held_4ops() {
+    run_ops_from(true, 4, true);
+}
+
+// HARNESS: c08_visibility_blacklist_hidden_4ops
+// PROPS: C08 C03
+// TIER: quick
+// TIMEOUT: 900
+// DRIVES: ClientVisibility::blacklist, ClientVisibility::set_visibility, ClientVisibility::remove_despawned, ClientVisibility::drain_lost, ClientVisibility::update, ClientVisibility::is_visible, ClientVisibility::state
+// BOUNDS: blacklist policy, both entities hidden (not held) since an earlier tick; every sequence of 4 operations from {show e, hide e, despawn e, tick}; stand-in maps CAP 4; unwind 6
+#[kani::proof]
+#[kani::unwind(6)]
+fn c08_visibility_blacklist_hidden_4ops() {
+    run_ops_from(false, 4, true);
 }
